@@ -235,7 +235,10 @@ PROPS = {
                    f"{BPM}:PowerBoundsCalculator.battery_metrics"],
         lemmas=["advertised_power_covers_every_group_minimum"],
         bounded=[dict(kind="native_script", name="same readings on both sides: the real metric fetchers hand every finite reading on "
-                                                 "unchanged (non-integer bounds included)", module="native.explore_pool_fetcher")],
+                                                 "unchanged (non-integer bounds included)", module="native.explore_pool_fetcher"),
+                 dict(kind="native_script", name="end to end with history: real BatteryManager next to the real PowerBoundsCalculator through "
+                                                 "working-set changes and data updates; advertised powers admitted, inclusion bounds agree",
+                      module="native.explore_bounds_agreement")],
         level="proof",
         explanation="For symbolic (real-valued) bounds data: BatteryManager._get_bounds returns the documented closed forms, its "
                     "inclusion bounds are identical to the advertised ones and its exclusion zone lies inside the advertised one; "
